@@ -1,7 +1,10 @@
 //! Conformance runner: drives the real regress crate with the cases the TLA+ specification
 //! enumerates and records what it did, for TLC to judge.
 mod ast;
+mod common;
 mod escape;
+mod grammar;
+mod render;
 mod replace;
 mod sem;
 
@@ -18,6 +21,8 @@ fn main() {
         "sem" => sem::main(rest),
         "replace" => replace::main(rest),
         "escape" => escape::main(rest),
+        "grammar" => grammar::main(rest),
+        "render" => render::main(rest),
         other => {
             eprintln!("unknown command {}", other);
             2
